@@ -40,7 +40,7 @@ import (
 var (
 	c07SDK        = []string{"2026-07-28", "2025-11-25", "2025-06-18", "2025-03-26", "2024-11-05"}
 	c07Requested  = []string{"", "2026-07-28", "2025-11-25", "2025-06-18", "2025-03-26", "2024-11-05", "2020-01-01", "2025-07-01", "2099-12-31", "zzz", "1.0", "2026-07-29", c07EmptyOptions}
-	c07Transports = []string{"mem", "mem-legacy", "pipe", "pipe-legacy", "sse", "http", "http-json", "http-es", "http-json-es", "http-nosid", "http-nosid-json", "http-stateless", "http-stateless-json", "http-stateless-es"}
+	c07Transports = []string{"mem", "mem-legacy", "mem-legacy-logged", "pipe", "pipe-legacy", "pipe-legacy-logged", "sse", "http", "http-json", "http-es", "http-json-es", "http-nosid", "http-nosid-json", "http-stateless", "http-stateless-json", "http-stateless-es"}
 	c07Priors     = []string{"none", "stateless-first", "stateful-open", "stateless-open", "sse-first", "trimmed-probe", "same-client-sse-first"}
 	c07Discovers  = []string{"ok", "notfound", "invalid-params", "unsupported-data", "unsupported-data-always", "unsupported-nodata", "internal", "unsupported-data-sdkwide"}
 	c07Sets       = [][]string{
@@ -313,7 +313,7 @@ func runC07Real(c *vh.Case, spec c07Spec) {
 	var err error
 	modernCapable := true
 	switch spec.Transport {
-	case "mem", "mem-legacy", "pipe", "pipe-legacy":
+	case "mem", "mem-legacy", "pipe", "pipe-legacy", "mem-legacy-logged", "pipe-legacy-logged":
 		var st, ct mcp.Transport
 		if strings.HasPrefix(spec.Transport, "mem") {
 			st, ct = mcp.NewInMemoryTransports()
@@ -323,9 +323,13 @@ func runC07Real(c *vh.Case, spec c07Spec) {
 			st = &mcp.IOTransport{Reader: sr, Writer: sw}
 			ct = &mcp.IOTransport{Reader: cr, Writer: cw}
 		}
-		if strings.HasSuffix(spec.Transport, "-legacy") {
+		if strings.Contains(spec.Transport, "-legacy") {
 			st = legacyOnlyTransport{st}
 			modernCapable = false
+		}
+		if strings.HasSuffix(spec.Transport, "-logged") {
+			// the SDK's own logging wrapper around a transport that cannot serve the sessionless protocol
+			st = &mcp.LoggingTransport{Transport: st, Writer: io.Discard}
 		}
 		ss, serr := server.Connect(ctx, st, nil)
 		if serr != nil {
